@@ -149,6 +149,8 @@ class Administrative(AbstractApplication):
                 chal = self._acme_resp[chal.key]
             except KeyError:
                 LOGGER.warning('Unexpected ACME request from %s', source)
+                # refused, so not delivered either
+                ctr.actions.pop('deliver', None)
                 ctr.record_action('delete')
                 return
             chal.token_bundle_enc = AcmeChallenge.b64encode(msg[AcmeKey.TOKEN_BUNDLE])
@@ -161,6 +163,8 @@ class Administrative(AbstractApplication):
             both_alg_ids = [aid for aid in server_alg_ids if aid in client_alg_ids]
             if not both_alg_ids:
                 LOGGER.warning('No mutual acceptable hash algorithms in %s', server_alg_ids)
+                # refused, so not delivered either
+                ctr.actions.pop('deliver', None)
                 ctr.record_action('delete')
                 return
             alg = client_alg_ids[both_alg_ids[0]]
@@ -180,6 +184,8 @@ class Administrative(AbstractApplication):
                 chal = self._acme_chal[chal.key]
             except KeyError:
                 LOGGER.warning('Unexpected ACME response from %s', source)
+                # refused, so not delivered either
+                ctr.actions.pop('deliver', None)
                 ctr.record_action('delete')
                 return
             expect_auth_hash = chal.key_auth_hash()
